@@ -74,3 +74,31 @@ def ground_for(n, tag, ltype):
         if t == tag:
             return _ground(contr, labels, want, zero_sum, n)
     return None
+
+
+def pipeline_specs():
+    """(formula spelling of the categorical factor, closed-form reduced coding, levels in coding order) for the pipeline part."""
+    levels = ["x", "y", "z"]
+    return [
+        ("C(A)", ref.as_float(ref.treatment(3, 0)), levels),
+        ("C(A, contr.treatment(base='y'))", ref.as_float(ref.treatment(3, 1)), levels),
+        ("C(A, contr.treatment('z'))", ref.as_float(ref.treatment(3, 2)), levels),
+        ("C(A, contr.SAS)", ref.as_float(ref.sas(3)), levels),
+        ("C(A, contr.sum)", ref.as_float(ref.sum_(3)), levels),
+        ("C(A, contr.helmert)", ref.as_float(ref.helmert(3)), levels),
+        ("C(A, contr.helmert(reverse=False, scale=True))", ref.as_float(ref.helmert(3, False, True)), levels),
+        ("C(A, contr.diff)", ref.as_float(ref.diff(3)), levels),
+        ("C(A, contr.diff(backward=False))", ref.as_float(ref.diff(3, False)), levels),
+        ("C(A, contr.poly)", ref.poly(3), levels),
+        ("C(A, levels=['z', 'x', 'y'])", ref.as_float(ref.treatment(3, 0)), ["z", "x", "y"]),
+        ("C(A, contr.sum, levels=['y', 'z', 'x', 'w'])", ref.as_float(ref.sum_(4)), ["y", "z", "x", "w"]),
+        ("C(A, contr.treatment, levels=['w', 'x', 'y', 'z'])", ref.as_float(ref.treatment(4, 0)), ["w", "x", "y", "z"]),
+        # the other spellings a formula can use: patsy-compatible names, SAS with a base, poly with scores
+        ("C(A, Treatment('y'))", ref.as_float(ref.treatment(3, 1)), levels),
+        ("C(A, Sum)", ref.as_float(ref.sum_(3)), levels),
+        ("C(A, Helmert)", ref.as_float(ref.helmert(3)), levels),
+        ("C(A, Diff)", ref.as_float(ref.diff(3)), levels),
+        ("C(A, Poly)", ref.poly(3), levels),
+        ("C(A, contr.SAS(base='x'))", ref.as_float(ref.sas(3, 0)), levels),
+        ("C(A, contr.poly(scores=[1, 2, 4]))", ref.poly(3, [1.0, 2.0, 4.0]), levels),
+    ]
